@@ -379,6 +379,12 @@ def get_counterexample(pid, harness, mem_gb, harness_timeout_s):
     r = run_kani([harness], 1, max(3 * harness_timeout_s, 900), max(mem_gb, 48), exact=True, playback=True,
                  logname=f"{pid}-playback-{sanitize(harness)}.log", cbmc_args=props.PROPS[pid].get("cbmc_args"))
     hr = r["results"].get(harness)
+    if not hr or (hr.get("verdict") != "fail" and "playback" not in hr):
+        # the playback run itself died (kani-driver runs out of memory parsing very large traces):
+        # decide the harness a second time without trace generation
+        r2 = run_kani([harness], 1, max(3 * harness_timeout_s, 900), max(mem_gb, 48), exact=True,
+                      logname=f"{pid}-recheck-{sanitize(harness)}.log", cbmc_args=props.PROPS[pid].get("cbmc_args"))
+        hr = r2["results"].get(harness)
     if hr and "playback" not in hr and hr.get("verdict") == "fail":
         # Kani confirmed the failure a second time but its concrete-playback feature emitted no unit
         # test (a Kani limitation seen with large transmuted symbolic arrays).  Record a solver-rerun
